@@ -318,6 +318,24 @@ def run_fieldsum(case):
     else:
         events.append(judge("fieldsum/residual", resid, 1e-9, key + "/residual", pmin=float(p0.min()),
                             pmax=float(p0.max()), width=width, dt=dt, u=u))
+    if not constraint:
+        # the step is homogeneous in the walker: the same determinant with un-normalised columns (absolute overlap down to ~1e-15) takes
+        # the same branches with the same weights; walkers scale with the columns, overlaps with their product
+        wsc = [2.0e-5, 3.0e-3, 40.0][case["s"] % 3]
+        init_s = [jnp.array(np.repeat((wsc * wu)[None], batch, 0) + 0j), jnp.array(np.repeat((wsc * wd)[None], batch, 0) + 0j)]
+        pd_s = prop.init_prop_data(trial, wave_data, ham_data, init_s)
+        pd_s["pop_control_ene_shift"] = jnp.array(case["shift"])
+        gauss_l = np.zeros((batch, n))
+        for li, f in enumerate(leaves):
+            gauss_l[li] = [FORCE[b] for b in f]
+        out_s = prop.propagate(trial, ham_data, {k2: (list(v2) if isinstance(v2, list) else v2) for k2, v2 in pd_s.items()}, jnp.array(gauss_l), wave_data)
+        nl = len(leaves)
+        w_s = np.asarray(out_s["weights"])[:nl]
+        d_w = float(np.max(np.abs(w_s - leaf_res[2]) / np.maximum(np.abs(leaf_res[2]), 1e-300)))
+        d_u = float(np.max(np.abs(np.asarray(out_s["walkers"][0])[:nl] / wsc - leaf_res[0])))
+        d_o = float(np.max(np.abs(np.asarray(out_s["overlaps"])[:nl] / wsc ** (na + nb) - leaf_res[3]) / np.maximum(np.abs(leaf_res[3]), 1e-300)))
+        events.append(judge("fieldsum/scale-invariance-of-the-step", max(d_w, d_u, d_o), 1e-8, key + "/walker-scale", scale=wsc,
+                            old_overlap=o_old * wsc ** (na + nb), parts={"weights": d_w, "walkers": d_u, "overlaps": d_o}))
     return {"events": events, "nontrivial": not constraint,
             "sample": {"residual": resid, "probabilities_branch0": [float(x) for x in p0[:8]],
                        "leaf_weights": [float(x) for x in wts[:8]], "bracket_width": width, "old_overlap": o_old},
